@@ -486,8 +486,16 @@ func (fr *Frame) unop(x *ssa.UnOp, st *State, g string) {
 		fr.setVal(x, tc.sortOf(x.Type()), ld)
 		fc.assume(g, tc.wf(fr.vals[x].t, x.Type(), fc.watermark(st)))
 		if strings.HasPrefix(ld, "(select H0_") {
-			// read straight from a component of the ENTRY heap: whatever it holds was allocated before entry
-			fc.assume(g, tc.wf(fr.vals[x].t, x.Type(), compInit("W")))
+			// read straight from a component of the ENTRY heap: whatever an OLD cell holds was allocated before entry.
+			// (Only for cells that existed at entry: the fields of an object returned `fresh` by an assumed contract with
+			// `modifies nothing` are also read from the entry component, and they may well point to other fresh objects --
+			// assuming them old contradicted `fresh(result.Field)` and made everything after such a call vacuous.)
+			// The guard is needed only when the address is derived from a call result (ext_kviter.go: addrFromCall).
+			gg := g
+			if addrFromCall(x.X, 0) {
+				gg = and(g, app("<", app("root", v.t), compInit("W")))
+			}
+			fc.assume(gg, tc.wf(fr.vals[x].t, x.Type(), compInit("W")))
 		}
 	case token.NOT:
 		fr.setVal(x, "Bool", not(v.t))
@@ -550,6 +558,7 @@ func (fr *Frame) convert(x *ssa.Convert, st *State, g string) {
 		fc.assume("true", eq(app("str_of_bytes", blk, "0", n), v.t))
 		fc.emit(fmt.Sprintf("(assert (forall ((i Int)) (! (=> (and (<= 0 i) (< i %s)) (= (select %s i) (strat %s i))) :pattern ((select %s i)))))", n, blk, v.t, blk))
 		fr.setVal(x, "Slice", mkSlice(pt, "0", n, n))
+		fr.kvStringBytes(g, blk, n, v.t) // ext_kviter.go: kvkey([]byte(s)) == strkey(s)
 	case tok && tb.Info()&types.IsString != 0:
 		if _, isSl := from.(*types.Slice); isSl {
 			k, s := fc.bKey(types.Typ[types.Uint8])
